@@ -247,3 +247,29 @@ func TestD12(t *testing.T) {
 		}
 	}
 }
+
+func TestD15(t *testing.T) {
+	f := am.MustFunc(am.NewFunc(func(in struct {
+		am.Struct
+		X T
+		Y U
+	}) int {
+		return 0
+	}))
+	_, err := f.Redefine(nolog,
+		am.FilterInput(am.FilterOr(am.FilterType(reflect.TypeOf(A(0))), am.FilterType(reflect.TypeOf(B(0))))),
+		am.Converter(func(in struct {
+			am.Struct
+			C A
+		}) T {
+			return 0
+		}, func(in struct {
+			am.Struct
+			C B
+		}) U {
+			return 0
+		}))
+	if err == nil {
+		t.Fatal("expected an error for two required inputs named c")
+	}
+}
